@@ -60,6 +60,8 @@ type e20Suite struct {
 	fresh  []sdk.AccAddress // addresses without an account
 	metaV  map[string]int
 	scale  int
+	later  bool     // this transaction fails in a later message
+	noLater bool    // ... never (seeding a world)
 	crowd  bool     // a world whose registry is filled past the query servers' default page size (100)
 	extra  []string // further registrable coins of a crowded world
 }
@@ -479,8 +481,32 @@ func (s *e20Suite) sync() {
 	s.t.Line("S " + strings.Join(xs, " ") + " tb=" + mapFull(o.tb) + " ts=" + mapFull(o.ts) + " " + o.snap.Full())
 }
 
+// deliver: World.Deliver for the keeper's messages; one transaction in fifteen fails in a LATER message (a proposal or
+// transaction whose second message is invalid): everything this message did — in the bank, the registry and the EVM — is
+// discarded with it.
+func (s *e20Suite) deliver(f func(ctx sdk.Context) error) Outcome {
+	s.later = !s.noLater && s.r.Intn(15) == 0
+	hok := false
+	out := s.w.Deliver(func(ctx sdk.Context) error {
+		err := f(ctx)
+		if err == nil && s.later {
+			hok = true
+			return fmt.Errorf("a later message of the transaction failed")
+		}
+		return err
+	})
+	if hok {
+		out.Class = "later"
+	}
+	return out
+}
+
 func (s *e20Suite) emit(kind, args string, dev Dev, out Outcome, resp string, pre e20Obs) {
 	s.t.seq++
+	if s.later {
+		args += " later=1"
+		s.later = false
+	}
 	post := s.observeNow()
 	s.cur = &post
 	var xs []string
@@ -750,7 +776,7 @@ func (s *e20Suite) doCC(denom string, amt sdkmath.Int, recvStr, recvTok, senderS
 	s.tok.Reset(dev)
 	pre := s.observe()
 	resp := ""
-	out := s.w.Deliver(func(ctx sdk.Context) error {
+	out := s.deliver(func(ctx sdk.Context) error {
 		res, err := s.k.ConvertCoin(ctx, msg)
 		if err == nil {
 			if res == nil {
@@ -826,7 +852,7 @@ func (s *e20Suite) doCE(cStr, cTok string, amt sdkmath.Int, recvStr, recvTok, se
 	s.tok.Reset(dev)
 	pre := s.observe()
 	resp := ""
-	out := s.w.Deliver(func(ctx sdk.Context) error {
+	out := s.deliver(func(ctx sdk.Context) error {
 		res, err := s.k.ConvertERC20(ctx, msg)
 		if err == nil {
 			if res == nil {
@@ -909,9 +935,11 @@ func (s *e20Suite) opRegisterCoin(force bool) {
 	if !force {
 		dev = s.pickDev("rc", 1, 6)
 	}
+	s.noLater = force
+	defer func() { s.noLater = false }()
 	s.tok.Reset(dev)
 	pre := s.observe()
-	out := s.w.Deliver(func(ctx sdk.Context) error {
+	out := s.deliver(func(ctx sdk.Context) error {
 		_, err := s.k.RegisterCoinProposal(ctx, &erc20types.MsgRegisterCoin{Authority: authStr, Title: "t", Description: "d", Metadata: md})
 		return err
 	})
@@ -960,13 +988,15 @@ func (s *e20Suite) opRegisterERC20(force bool) {
 	if !force {
 		dev = s.pickDev("re", 1, 6)
 	}
+	s.noLater = force
+	defer func() { s.noLater = false }()
 	s.tok.Reset(dev)
 	pre := s.observe()
 	cs := c.Hex()
 	if r.Intn(4) == 0 {
 		cs = strings.ToLower(cs)
 	}
-	out := s.w.Deliver(func(ctx sdk.Context) error {
+	out := s.deliver(func(ctx sdk.Context) error {
 		_, err := s.k.RegisterERC20Proposal(ctx, &erc20types.MsgRegisterERC20{Authority: authStr, Title: "t", Description: "d", Erc20Address: cs})
 		return err
 	})
@@ -1017,7 +1047,7 @@ func (s *e20Suite) doToggle(tok, authStr, authTok string) {
 	}
 	s.tok.Reset(Dev{})
 	pre := s.observe()
-	out := s.w.Deliver(func(ctx sdk.Context) error {
+	out := s.deliver(func(ctx sdk.Context) error {
 		_, err := s.k.ToggleTokenConversionProposal(ctx, &erc20types.MsgToggleTokenConversion{Authority: authStr, Title: "t", Description: "d", Token: tok})
 		return err
 	})
@@ -1039,7 +1069,7 @@ func (s *e20Suite) opParams() {
 func (s *e20Suite) doParams(p erc20types.Params, authStr, authTok string) {
 	s.tok.Reset(Dev{})
 	pre := s.observe()
-	out := s.w.Deliver(func(ctx sdk.Context) error {
+	out := s.deliver(func(ctx sdk.Context) error {
 		_, err := s.k.UpdateParams(ctx, &erc20types.MsgUpdateParams{Authority: authStr, Params: p})
 		return err
 	})
@@ -1316,6 +1346,8 @@ func (s *e20Suite) bechOf(a []byte) (string, string) {
 
 // opRoundtrip: convert an amount one way and straight back (honest token, no deviation), self or via a third party
 func (s *e20Suite) opRoundtrip() {
+	s.noLater = true // a systematic sequence: every step counts
+	defer func() { s.noLater = false }()
 	r := s.r
 	p, ok := s.pickPair(0)
 	if !ok {
@@ -1354,6 +1386,8 @@ func (s *e20Suite) opRoundtrip() {
 // messages; both message routes to every kind of receiver (self, a third party with bank sends of the coin enabled and
 // disabled, every module account); the hook route (transfer to the module address) and an ordinary transfer.
 func (s *e20Suite) sweep() {
+	s.noLater = true // a systematic sequence: every step counts
+	defer func() { s.noLater = false }()
 	r := s.r
 	for kind := 1; kind <= 2; kind++ {
 		p, ok := s.pickPair(kind)
